@@ -691,6 +691,8 @@ type frame struct {
 	a [2]int
 }
 
+type tagMap map[int]string
+
 func (c *cell) Get() int { return c.n }
 
 func (c cell) Val() int { return c.n * 2 }
@@ -1138,6 +1140,34 @@ func optFrames(f frame, n int) «Iter[frame]» {
 	return nil
 }
 
+// composite literals of NAMED map / slice / struct types whose keys and elements read a
+// variable that changes between the yields; each yield stands alone in its thunk
+func optTags(n int) «Iter[tagMap]» {
+	cnt := 0
+	bump := func() { cnt += 2 }
+	for i := 0; i < n; i++ {
+		«Yield»(tagMap{i: "x"})
+		bump()
+	}
+	«Yield»(tagMap{cnt: "c"})
+	if n > 1 {
+		bump()
+		«Yield»(tagMap{-1: "y"})
+	}
+	«Yield»(tagMap{cnt + 100: "d"})
+	return nil
+}
+
+// two range statements that start on ONE source line (not gofmt'ed): their iterator
+// temporaries are declared in the same block
+func OptOneLine(a, b int) «Iter[int]» {
+	x := 0
+	for _, v := range []int{a, 1} { x += v }; for _, v := range []int{b, 2} { x += v * 3 }
+	«Yield»(x)
+	for i := range 2 { «Yield»(i) }; for i := range 2 { «Yield»(i + 10) }
+	return nil
+}
+
 func optArrs(p [2]int, n int) «Iter[[2]int]» {
 	if n > 0 {
 		p[0] = n
@@ -1159,6 +1189,11 @@ func UseFrames(a, b int) int {
 	}
 	for p := range «RANGE(optArrs([2]int{a, 0}, b))» {
 		s = s*3 + p[0] + p[1]*11
+	}
+	for m := range «RANGE(optTags(((b%%4)+4)%%4))» {
+		for k, v := range m {
+			s = s*3 + k + len(v)
+		}
 	}
 	return vrt.V(%[7]d, s)
 }
@@ -1235,6 +1270,8 @@ func OptDelay(a, b int) (_ «Iter[int]») {
 `, tag(), tag(), k2, tag(), tag(), tag(), tag())
 	genRef := strings.NewReplacer(
 		"func OptLookup(a, b int) «Iter[int]» {\n", "func OptLookup(a, b int) «Iter[int]» {\n\treturn refco.Go(func(ʏ *refco.Y[int]) {\n",
+		"func optTags(n int) «Iter[tagMap]» {\n", "func optTags(n int) «Iter[tagMap]» {\n\treturn refco.Go(func(ʏ *refco.Y[tagMap]) {\n",
+		"func OptOneLine(a, b int) «Iter[int]» {\n", "func OptOneLine(a, b int) «Iter[int]» {\n\treturn refco.Go(func(ʏ *refco.Y[int]) {\n",
 		"func optFrames(f frame, n int) «Iter[frame]» {\n", "func optFrames(f frame, n int) «Iter[frame]» {\n\treturn refco.Go(func(ʏ *refco.Y[frame]) {\n",
 		"func optArrs(p [2]int, n int) «Iter[[2]int]» {\n", "func optArrs(p [2]int, n int) «Iter[[2]int]» {\n\treturn refco.Go(func(ʏ *refco.Y[[2]int]) {\n",
 		"func genLevels(n int) «Iter[int]» {\n", "func genLevels(n int) «Iter[int]» {\n\treturn refco.Go(func(ʏ *refco.Y[int]) {\n",
@@ -1279,7 +1316,8 @@ func OptDelay(a, b int) (_ «Iter[int]») {
 		mk("OptPromotedNilClosure", true, "eta_shape_promoted_method_nil_receiver"),
 		mk("OptLookup", true, "plain_closure_in_generator_leaves_native_range_with_break_and_continue_result_type_any"),
 		mk("ByImportInSignature", false, "import_mentioned_only_by_the_signature_of_a_reducible_literal"),
-		mk("UseFrames", false, "yield_of_by_value_struct_and_array_parameters_written_through_fields"),
+		mk("OptOneLine", true, "two_range_statements_starting_on_one_source_line"),
+		mk("UseFrames", false, "yield_of_by_value_struct_and_array_parameters_written_through_fields", "yield_of_named_map_literal_with_variable_key"),
 	}
 	plain = []string{"// the only writers of pkgLevel2 and pkgTable (declared in a rewritten file) live in this plain file\nfunc setLevel2(n int) { pkgLevel2 = n }\n\nfunc setTable(i, v int) { pkgTable[i] = v }\n"}
 	return
